@@ -2178,6 +2178,7 @@ package xpath
 //@   ensures[drains-input@C01] result == nil ==> k(d.Input) == slen(ref(d.Input), epoch(d.Input))
 //@   ensures[proper-descendant-or-self@C01] result != nil ==> result == d.currentNode && (d.level >= 1 || d.level == 0 && d.MatchSelf && d.posit == 1)
 //@   loop 0 invariant[level@C01] d.level >= 0
+//@   loop 1 invariant[level@C01] d.level >= 1
 //@ func (*mergeQuery).Select
 //@   props C15 C13
 //@   theory stream for C13
